@@ -376,6 +376,73 @@ Definition process_events (dir : list file) (o : oracle)
 End Send.
 
 (* ------------------------------------------------------------------------------------ *)
+(* evaluation-only variant: the batch size is carried along instead of re-rendering the whole  *)
+(* batch for every added event.  Proved equal to the faithful definitions above                *)
+(* (TelemetryProofs.process_events_fast_eq); used by the correspondence check for speed.       *)
+(* ------------------------------------------------------------------------------------ *)
+Section SendFast.
+Context (vm : vmmeta) (env : envinfo).
+Fixpoint fill_fast (st : list event) (td : tdata) (sz : N) : tdata * list event * list event :=
+  match st with
+  | [] => (td, [], [])
+  | e :: st' =>
+      let t := from_event_log e vm env in
+      let sz1 := sz + blen (to_xml_event t) in
+      if max_message_size <=? sz1 then
+        if event_count td =? 0 then (td, st', [e]) else (td, e :: st', [])
+      else fill_fast st' (add_event td t) sz1
+  end.
+Fixpoint send_loop_fast (fuel : nat) (st : list event) (o : oracle) : option (list round * oracle) :=
+  match st with
+  | [] => Some ([], o)
+  | _ :: _ =>
+      match fuel with
+      | O => None
+      | S f =>
+          let '(td, st', dr) := fill_fast st [] (get_size []) in
+          let (atts, o') := send_data td o in
+          match send_loop_fast f st' o' with
+          | None => None
+          | Some (rs, o'') => Some (mk_round td dr atts :: rs, o'')
+          end
+      end
+  end.
+Definition send_events_fast (evs : list event) (o : oracle) := send_loop_fast (length evs) (rev evs) o.
+Fixpoint process_files_fast (files : list file) (o : oracle)
+  : option (list file_result * list bytes * N * oracle) :=
+  match files with
+  | [] => Some ([], [], 0, o)
+  | (name, c) :: rest =>
+      match c with
+      | FEvents evs =>
+          match send_events_fast evs o with
+          | None => None
+          | Some (rs, o') =>
+              match process_files_fast rest o' with
+              | None => None
+              | Some (frs, removed, n, o'') =>
+                  Some (mk_fres name (Some rs) :: frs, name :: removed,
+                        N.of_nat (length evs) + n, o'')
+              end
+          end
+      | FUnreadable =>
+          match process_files_fast rest o with
+          | None => None
+          | Some (frs, removed, n, o'') =>
+              Some (mk_fres name None :: frs, name :: removed, n, o'')
+          end
+      end
+  end.
+Definition process_events_fast (dir : list file) (o : oracle)
+  : option (list file_result * list file * N * oracle) :=
+  match process_files_fast (search_files dir) o with
+  | None => None
+  | Some (frs, removed, n, o') =>
+      Some (frs, filter (fun f => negb (name_in (fst f) removed)) dir, n, o')
+  end.
+End SendFast.
+
+(* ------------------------------------------------------------------------------------ *)
 (* what the host has seen when the reader is stopped (EventReader::start: tokio::select! drops   *)
 (* loop_reader at an await point when the cancellation token fires, then only reports STOPPED):  *)
 (* a prefix of the POST sequence.  An upload is accepted when the host answered 2xx.            *)
